@@ -117,6 +117,7 @@ OPS = [
     O('uint.shl_vartime', 'u', ['shift'], kind='vt', lean='shl_vartime_trace_pub'),
     O('uint.shr_vartime', 'u', ['shift'], kind='vt', lean='shr_vartime_trace_pub'),
     O('uint.bits', 'u', lean='uint_bits_ni'), O('uint.bits_vartime', 'u', kind='control', lean='bits_vartime_leaks'),
+    O('uint.checked_chain', ['u', 'u', 'u'], wq=[1, 2, 4]),
     O('uint.bits_trait', 'u', wq=[1, 2, 4, 16], lean='uint_bits_ni'), O('uint.cmp_odd', ['u', 'omod'], wq=[1, 2, 4, 16], lean='uint_cmp_ni'),
     O('uint.leading_zeros', 'u', lean='uint_leading_zeros_ni'), O('uint.trailing_zeros', 'u', lean='uint_trailing_zeros_ni'),
     O('uint.trailing_ones', 'u', lean='uint_trailing_zeros_ni'),
